@@ -265,6 +265,59 @@ type runSpec struct {
 	Mask    uint64 // listened nodes
 	All     bool   // all-functions factory
 	Comp    int    // factory composition, see compose
+	// NoFac: per-module factory presence. Bit 0 = the host module "env", bit l+1 = guest module
+	// "m<l>". A set bit means: that module is compiled with a context that carries NO listener
+	// factory at all (which differs from a factory that answers nil: the engine then has no listener
+	// table for the module). Every other module gets its own factory object (moduleFactory) feeding
+	// the shared recorder. 0 = every module is compiled with the one factory (all older families).
+	NoFac uint64
+	// Decoy: the context handed to InstantiateModule and to Call carries another factory that no
+	// compilation ever saw; its listeners must never be notified.
+	Decoy bool
+}
+
+// modIdx is the bit position of node i's module in runSpec.NoFac.
+func modIdx(t Tree, lvl []int, i int) int {
+	if t.isHost(i) {
+		return 0
+	}
+	return lvl[i] + 1
+}
+
+func modName(k int) string {
+	if k == 0 {
+		return "env"
+	}
+	return fmt.Sprintf("m%d", k-1)
+}
+
+// effectiveSet: the functions that must be notified = asked-for set restricted to the modules
+// whose compilation saw a factory.
+func effectiveSet(t Tree, set func(int) bool, nofac uint64) func(int) bool {
+	if nofac == 0 {
+		return set
+	}
+	lvl := t.levels()
+	return func(i int) bool { return set(i) && nofac>>uint(modIdx(t, lvl, i))&1 == 0 }
+}
+
+// moduleFactory is the factory object of ONE module in a mixed configuration: it forwards to the
+// factory under test and records a fault when the runtime consults it for a function of a module
+// it was not installed for.
+type moduleFactory struct {
+	inner experimental.FunctionListenerFactory
+	rec   *recorder
+	mod   int
+}
+
+func (f *moduleFactory) NewFunctionListener(def api.FunctionDefinition) experimental.FunctionListener {
+	t := f.rec.p.tree
+	if n := nodeOfDef(def); n >= 0 && n < len(t) && !t.isCallAgain(n) {
+		if k := modIdx(t, f.rec.p.lvl, n); k != f.mod {
+			f.rec.faults = append(f.rec.faults, fmt.Sprintf("factory of one module consulted for a function of another module: factory installed for the compilation of %s was asked about function %d of %s", modName(f.mod), n, modName(k)))
+		}
+	}
+	return f.inner.NewFunctionListener(def)
 }
 
 func (s runSpec) set() func(int) bool {
@@ -311,6 +364,7 @@ func runCase(p *program, spec runSpec) (res runResult) {
 	ctx := context.Background()
 	recA, recB := &recorder{p: p}, &recorder{p: p}
 	ctxA, ctxB := ctx, ctx
+	var underTest experimental.FunctionListenerFactory
 	if spec.Listen {
 		setA, allA := spec.set(), spec.All
 		if spec.History == "other" {
@@ -323,6 +377,23 @@ func runCase(p *program, spec runSpec) (res runResult) {
 		res.Comps = comps
 		recB = comps[len(comps)-1].rec
 		ctxB = experimental.WithFunctionListenerFactory(ctx, fB)
+		underTest = fB
+	}
+	// ctxFor: the context of the compilation of module k (0 = env, l+1 = m<l>)
+	ctxFor := func(k int) context.Context {
+		switch {
+		case !spec.Listen || spec.NoFac == 0:
+			return ctxB
+		case spec.NoFac>>uint(k)&1 == 1:
+			return ctx
+		}
+		return experimental.WithFunctionListenerFactory(ctx, &moduleFactory{inner: underTest, rec: recB, mod: k})
+	}
+	// runCtx: the context of instantiation (of an already compiled module) and of the call
+	runCtx := ctx
+	recD := &recorder{p: p}
+	if spec.Decoy {
+		runCtx = experimental.WithFunctionListenerFactory(ctx, recD.factory(nil, true))
 	}
 	cfg := rtConfig(spec.Engine)
 	var cache wazero.CompilationCache
@@ -369,16 +440,16 @@ func runCase(p *program, spec runSpec) (res runResult) {
 		}
 	}
 	if nhost > 0 && spec.History == "rtinst" {
-		if _, err := hb.Instantiate(ctxB); err != nil {
+		if _, err := hb.Instantiate(ctxFor(0)); err != nil {
 			return fail(err)
 		}
 	} else if nhost > 0 {
-		hc, err := hb.Compile(ctxB)
+		hc, err := hb.Compile(ctxFor(0))
 		if err != nil {
 			return fail(err)
 		}
 		compiled = append(compiled, hc)
-		if _, err = rt.InstantiateModule(ctx, hc, wazero.NewModuleConfig().WithName("env")); err != nil {
+		if _, err = rt.InstantiateModule(runCtx, hc, wazero.NewModuleConfig().WithName("env")); err != nil {
 			return fail(err)
 		}
 	}
@@ -413,10 +484,10 @@ func runCase(p *program, spec runSpec) (res runResult) {
 		var err error
 		if spec.History == "rtinst" {
 			// the context carries the factory: compilation happens inside
-			mod, err = rt.InstantiateWithConfig(ctxB, p.bins[l], wazero.NewModuleConfig().WithName(fmt.Sprintf("m%d", l)))
+			mod, err = rt.InstantiateWithConfig(ctxFor(l+1), p.bins[l], wazero.NewModuleConfig().WithName(fmt.Sprintf("m%d", l)))
 		} else {
 			var cm wazero.CompiledModule
-			cm, err = rt.CompileModule(ctxB, p.bins[l])
+			cm, err = rt.CompileModule(ctxFor(l+1), p.bins[l])
 			if err != nil {
 				panic(fmt.Errorf("harness: generated module rejected: %w", err))
 			}
@@ -428,7 +499,7 @@ func runCase(p *program, spec runSpec) (res runResult) {
 				fillers[0].Close(ctx)
 				fillers[2].Close(ctx)
 			}
-			mod, err = rt.InstantiateModule(ctx, cm, wazero.NewModuleConfig().WithName(fmt.Sprintf("m%d", l)))
+			mod, err = rt.InstantiateModule(runCtx, cm, wazero.NewModuleConfig().WithName(fmt.Sprintf("m%d", l)))
 		}
 		if l == 0 && p.start {
 			startErr = err
@@ -448,7 +519,7 @@ func runCase(p *program, spec runSpec) (res runResult) {
 	case p.start:
 		res.Out = outcome{Results: []uint64{}}
 	default:
-		r, err := m0.ExportedFunction(fname(0)).Call(ctx, params(0, p.sigs[0])...)
+		r, err := m0.ExportedFunction(fname(0)).Call(runCtx, params(0, p.sigs[0])...)
 		if err != nil {
 			res.Out = outcome{Err: classifyErr(err)}
 		} else {
@@ -458,6 +529,9 @@ func runCase(p *program, spec runSpec) (res runResult) {
 	}
 	res.Ev, res.EvA = recB.ev, recA.ev
 	res.Faults = append(recA.faults, recB.faults...)
+	if len(recD.ev) > 0 {
+		res.Faults = append(res.Faults, fmt.Sprintf("call-context factory notified: a factory that was only in the context of InstantiateModule/Call (no compilation saw it) received %d events: %s", len(recD.ev), clip(streamString(recD.ev))))
+	}
 	for _, c := range res.Comps[:max(len(res.Comps)-1, 0)] {
 		res.Faults = append(res.Faults, c.rec.faults...)
 	}
